@@ -10,7 +10,8 @@ CONSTANTS
   TxSectionEndsAtReceipts = FALSE
   HashIndexExact = TRUE
 INIT Init
-NEXT Next
+NEXT NextR
 VIEW view
+PROPERTIES RestartIsNoOp
 INVARIANTS ItemAccessors OutOfRange BlockAccessors ProjectionsAgree Layout
 CHECK_DEADLOCK FALSE
